@@ -1,4 +1,5 @@
 """Assumed contracts of library functions (each is an entry of the assumption register and is listed in the evidence of the units using it)."""
+import ast
 from z3 import *
 from . import engine as E
 
@@ -43,3 +44,63 @@ def deepcopy_node(ex, st, args):
     val = ex.spec.ufuns['val'][0]
     st.defs.append(ex.typ(r) == ex.typ(src.t)); st.defs.append(val(r) == val(src.t))
     return E.SV(r, src.ty)
+
+
+# ---------------------------------------------------------------- abstract file system (A-fs) for editor.py
+# FS is one ghost array path -> content kept in the field ('Editor', 'g_fs') of the editor object (`self`); a text-mode open WITH newline=''
+# hands out / stores the content verbatim; WITHOUT it the content is translated (universal newlines) - an uninterpreted function nl_translate.
+def _fs(ex, st):
+    slf = st.env['self']
+    return slf, ex.read(st, slf.t, slf.ty.arg, 'g_fs').t
+
+def _wants_call(f):
+    f.wants_call = True; return f
+
+@builtin('pathlib.Path', 'A-fs: pathlib.Path(p) denotes the same file as p')
+def path_of(ex, st, args):
+    return E.SV(args[0].t, E.STR)
+
+@builtin('p.open', 'A-fs: Path.open(mode, newline=\'\') yields a handle on that path; reading returns the stored content verbatim, writing replaces it verbatim; without newline=\'\' the content passes through universal-newline translation')
+@_wants_call
+def p_open(ex, st, e):
+    p = ex.ev(st, e.func.value)
+    kws = {k.arg: k.value for k in e.keywords}
+    verbatim = 'newline' in kws and isinstance(kws['newline'], ast.Constant) and kws['newline'].value == ''
+    mode = e.args[0].value if e.args else 'r'
+    h = E.SV(p.t, E.STR); h.fs_handle = (p.t, mode, verbatim)
+    return h
+
+@builtin('f.read', 'A-fs: see p.open')
+@_wants_call
+def f_read(ex, st, e):
+    f = ex.ev(st, e.func.value); path, mode, verbatim = f.fs_handle
+    slf, fs = _fs(ex, st)
+    c = Select(fs, path)
+    if not verbatim: c = Function('nl_translate', E.I, E.I)(c)
+    return E.SV(c, E.STR)
+
+@builtin('f.write', 'A-fs: see p.open')
+@_wants_call
+def f_write(ex, st, e):
+    f = ex.ev(st, e.func.value); path, mode, verbatim = f.fs_handle
+    v = ex.ev(st, e.args[0])
+    slf, fs = _fs(ex, st)
+    c = v.t if verbatim else Function('nl_translate_out', E.I, E.I)(v.t)
+    ex.write(st, slf.t, slf.ty.arg, 'g_fs', Store(fs, path, c))
+    return E.SV(IntVal(0), E.NONE)
+
+@builtin('self._parser.parse', 'A-lark: Parser.parse(text, File) returns a fresh File model whose printed text is `text` (C01; bounded-checked)')
+@_wants_call
+def parser_parse(ex, st, e):
+    text = ex.ev(st, e.args[0])
+    r = ex.alloc(st, 'file')
+    printed = ex.spec.ufuns['printed'][0]
+    st.defs.append(printed(r, Select(ex.hget(st.heap, ('File', 'g_version'), E.INT), r)) == text.t)
+    return E.SV(r, E.Ref('File'))
+
+@builtin('printer.print_model(file, io.StringIO()).getvalue', 'printed(file, version): the text print_model writes for the model in its current state (g_version changes whenever the caller\'s block edits it)')
+@_wants_call
+def print_getvalue(ex, st, e):
+    file = ex.ev(st, e.func.value.args[0])
+    printed = ex.spec.ufuns['printed'][0]
+    return E.SV(printed(file.t, Select(ex.hget(st.heap, ('File', 'g_version'), E.INT), file.t)), E.STR)
